@@ -27,6 +27,7 @@ namespace
     std::vector<long long> keys;
     std::vector<double> ax, sol;
     double dot = 0, norm2 = 0, def_init = 0, def_final = 0;
+    double noise_sol = 0; long noise_iters = 0;   // reference world: noise floor of the solve (see c13_kit.hpp)
     int status = -1; Index iters = 0; int cmax = 0, cmin = 0; std::string chosen;
   };
   struct Shared { wc::VertexDict dict; std::vector<RankOut> a, b; };
@@ -154,6 +155,22 @@ namespace
     solver->init();
     auto result = Solver::solve(*solver, vec_sol, vec_rhs, the_system_level.matrix_sys, the_system_level.filter_sys);
     out.status = int(result); out.iters = solver->get_num_iter(); out.def_init = solver->get_def_initial(); out.def_final = solver->get_def_final();
+    if(reference)
+    {
+      // the same solve on a right-hand side perturbed by a few ulps: how much does this iteration amplify rounding noise?
+      GlobalSystemVector rhs2 = vec_rhs.clone(LAFEM::CloneMode::Deep);
+      GlobalSystemVector sol2 = vec_sol.clone(LAFEM::CloneMode::Deep);
+      sol2.format();
+      the_system_level.filter_sys.filter_sol(sol2);
+      for(Index d = 0; d < nd; ++d)
+      {
+        const double sgn = (((unsigned long long)(out.keys[d] * 2654435761ll + 4242) >> 7) & 1ull) ? 1.0 : -1.0;
+        Tiny::Vector<double, 2> v = rhs2.local()(d); v[0] *= (1.0 + sgn * 8.9e-16); v[1] *= (1.0 - sgn * 8.9e-16); rhs2.local()(d, v);
+      }
+      Solver::solve(*solver, sol2, rhs2, the_system_level.matrix_sys, the_system_level.filter_sys);
+      for(Index d = 0; d < nd; ++d) for(int c = 0; c < 2; ++c) out.noise_sol = std::max(out.noise_sol, std::abs(sol2.local()(d)[c] - vec_sol.local()(d)[c]));
+      out.noise_iters = std::labs(long(solver->get_num_iter()) - long(out.iters));
+    }
     solver->done();
     mgh->done();
     for(Index d = 0; d < nd; ++d) for(int c = 0; c < 2; ++c) out.sol.push_back(vec_sol.local()(d)[c]);
@@ -205,13 +222,14 @@ namespace
       {
         ++CNT.matvec;
         if(!close(r.ax[2 * d + c], B.ax[2 * it->second + c], 1e-12, s_ax)) sim::fail("MATVEC", "blocked A*x differs from the one-process product");
-        if(!close(r.sol[2 * d + c], B.sol[2 * it->second + c], 1e-7, s_sol)) sim::fail("SOLUTION", "blocked discrete solution differs from the one-process solution");
+        if(!(std::abs(r.sol[2 * d + c] - B.sol[2 * it->second + c]) <= 1e-7 * s_sol + 1e3 * B.noise_sol)) sim::fail("SOLUTION", "blocked discrete solution differs from the one-process solution");
       }
     }
     CNT.iters += A[0].iters;
     if(A[0].status != B.status) sim::fail("SOLVER_STATUS", "solver status differs from the one-process run");
     long di = long(A[0].iters) - long(B.iters);
-    if(di < -1 || di > 1) sim::fail("ITERATIONS", "iteration count " + std::to_string(A[0].iters) + " differs from the one-process count " + std::to_string(B.iters));
+    const long di_tol = 1 + 2 * B.noise_iters;
+    if(di < -di_tol || di > di_tol) sim::fail("ITERATIONS", "iteration count " + std::to_string(A[0].iters) + " differs from the one-process count " + std::to_string(B.iters));
     if(!close(A[0].def_init, B.def_init, 1e-10, B.def_init)) sim::fail("DEFECT_INIT", "initial defect differs from the one-process run");
   }
 }
